@@ -2,6 +2,7 @@
 import json
 import os
 from engine import flow as fl, ru, paths as pa, expr, tables
+from rules import C15 as _c15
 
 EXPLANATION = (
     "Table extraction and path analysis over h3::qpack: (a) the 99-entry static table (const initialiser), "
@@ -18,7 +19,7 @@ EXPLANATION = (
     "Decides these structural clauses; equality with an independent codec over all inputs is not decided.")
 # every anchor of these rules lives in the h3 crate: thorough tier repeats them on the feature-less build
 EXTRA_CONFIGS = ["h3-plain"]
-RULES = "C11-a static tables (A11); C11-b wire formats (A11+decision lists); C11-c accepted representations (A3); C11-d prefix refusal (A16/A18); C11-e error class (A3); C11-f encoder choice (A3)"
+RULES = "C11-a static tables (A11); C11-b wire formats (A11+decision lists); C11-c accepted representations (A3); C11-d prefix refusal (A16/A18); C11-e error class (A3); C11-f encoder choice (A3); shared: Huffman decode_next rows under C11-c"
 
 HERE = os.path.dirname(os.path.dirname(os.path.abspath(__file__)))
 REF_TABLE = [(a.encode(), b.encode()) for a, b in json.load(open(os.path.join(HERE, "ref", "rfc9204_static_table.json")))["entries"]]
@@ -73,6 +74,8 @@ def enc_consts(ctx, path, callee):
 
 
 def run(ctx):
+    # string literals inside a field section: the Huffman table walk is shared with C15
+    _c15.huffman_decode_rows(ctx, "C11-c")
     prog = ctx.prog
     consts = prog.consts
 
